@@ -321,6 +321,7 @@ func c04Misconfig(c *Ctx, notFwd int64) {
 	if b := c.needMethod("R-C04-4", "internal/corerad", "Advertiser", "buildRA"); b != nil {
 		ps := c.pathsO("R-C04-4", b, an.PathOpts{EmitCut: true})
 		logged := false
+		nArm, nSilent := 0, 0
 		for _, p := range ps {
 			arm := false
 			for _, a := range p.Atoms {
@@ -331,10 +332,14 @@ func c04Misconfig(c *Ctx, notFwd int64) {
 					}
 				}
 			}
-			if arm {
+			if arm && p.Panic == nil {
+				// every way through the arm writes the log line (no latch, rate limit or early exit)
+				nArm++
 				logs := callsOnPath(p, func(cc *ssa.CallCommon) bool { return an.CallIs(cc, PkgCorerad, "Advertiser", "logf") })
-				if len(logs) >= 1 && p.Panic == nil {
+				if len(logs) >= 1 {
 					logged = true
+				} else {
+					nSilent++
 				}
 			}
 			if p.Ret != nil && len(p.Results) == 2 && exprIsNil(p.Results[1]) {
@@ -343,8 +348,8 @@ func c04Misconfig(c *Ctx, notFwd int64) {
 					"returns "+p.Results[0].String(), "the RA produced by ifi.RouterAdvertisement(forwarding), unmodified", "RA altered after the forwarding rule was applied")
 			}
 		}
-		c.R.Check(logged, "R-C04-4", c.fname(b)+":logs-not-forwarding", c.fname(b), c.pos(b.Pos()), fmt.Sprintf("log line on the InterfaceNotForwarding arm=%v", logged),
-			"the condition is logged when an RA is built", "misconfiguration not logged")
+		c.R.Check(logged && nSilent == 0, "R-C04-4", c.fname(b)+":logs-not-forwarding", c.fname(b), c.pos(b.Pos()), fmt.Sprintf("log line on the InterfaceNotForwarding arm=%v (%d of %d path(s) through the arm write nothing)", logged, nSilent, nArm),
+			"the condition is logged every time an RA is built while it holds", "misconfiguration not logged (or only the first time)")
 	}
 
 	// constScrape hands the same reads to collectMetrics
